@@ -4,12 +4,16 @@
 //!
 //!   cvh replay <spec> --in behaviours.ndjson --out report.json [opts]   (spec -> code)
 //!   cvh drive  <spec> --out trace.ndjson [--n N] [opts]                 (code -> spec traces)
+mod alloc;
 mod build;
 mod common;
 mod isolate;
 mod observe;
 mod par;
 mod props;
+
+#[global_allocator]
+static GLOBAL: alloc::Counting = alloc::Counting;
 
 #[allow(unused_imports)]
 use common::Args;
@@ -37,6 +41,9 @@ fn main() {
         ("drive", "protected") => props::protected::drive(&args),
         ("replay", "metadata") => props::metadata::replay(&args),
         ("drive", "metadata") => props::metadata::drive(&args),
+        ("faults", "fields") => props::faults::write_fields(&args),
+        ("faults", "child") => props::faults::child(&args),
+        ("faults", "run") => props::faults::run(&args),
         ("replay", "de") => props::de::replay(&args),
         ("drive", "de") => props::de::drive(&args),
         ("replay", "cfb") => isolate::run_replay(&args, props::cfb::replay),
